@@ -170,7 +170,7 @@ func firstBlock(offsets []uint64, rangeStart uint64) int {
 			// must be out of range, fail
 			return -1
 		}
-		if rangeStart > blockStart {
+		if rangeStart >= blockEnd {
 			lo = i
 		} else {
 			hi = i
